@@ -1308,7 +1308,11 @@ class CodeBuilder:
             and not math.isinf(value)
         ):
             return repr(value)
-        elif isinstance(value, tuple) and not is_named_tuple(type(value)):
+        elif type(value) is tuple and all(
+            # the repr of anything else need not be an evaluable expression
+            type(item) in (str, int, bool, NoneType)  # type: ignore
+            for item in value
+        ):
             return repr(value)
         else:
             name = f"v_{uuid.uuid4().hex}"
